@@ -455,6 +455,14 @@ def stream_struct(tier, seed):
         meta[gid] = {"entry": "txouts", "tag": "bigcount", "len": len(b)}
         lines.append(P(gid + ".full", "txouts", b + b"\x77"))
         lines.append(P("%s.p%d" % (gid, len(b) - 1), "txouts", b[:-1]))
+    # G5: a real 1.38 MB mainnet block (bitcoin-test-data crate, in the cargo registry), implementation +
+    # reference decoder + rust-bitcoin only
+    for path in glob.glob(os.path.expanduser("~/.cargo/registry/src/*/bitcoin-test-data-*/test_data/mainnet_block_*.raw"))[:1]:
+        data = open(path, "rb").read()
+        meta["robig"] = {"entry": "block", "tag": "mainnet", "len": len(data)}
+        lines.append(P("robig.full", "block", data))
+        lines.append(P("robig.b777", "block", data, 0, 777))
+        lines.append(P("robig.p%d" % (len(data) - 3), "block", data[:-3]))
     # script lengths across the boundaries, and huge declared lengths
     for ln in [0, 1, 252, 253, 254, 255, 256, 65535, 65536]:
         sb = btc.cs(ln) + btc.rand_bytes(rng, ln)
